@@ -1256,6 +1256,37 @@ func ruleRegisterContract(r *Run, rule string) {
 		}
 		return true
 	})
+	// the plugin's name, asked for in place or once into a local that is never written again (`name := p.Name()`)
+	nameLocals := map[types.Object]bool{}
+	defs := map[types.Object]int{}
+	ast.Inspect(fn.Decl.Body, func(n ast.Node) bool {
+		as, ok := n.(*ast.AssignStmt)
+		if !ok {
+			return true
+		}
+		for k, l := range as.Lhs {
+			o := ObjOf(info, l)
+			if o == nil {
+				continue
+			}
+			defs[o]++
+			if len(as.Rhs) == len(as.Lhs) && strings.Contains(ExprStr(as.Rhs[k]), ".Name()") {
+				nameLocals[o] = true
+			}
+		}
+		return true
+	})
+	isName := func(e ast.Expr) bool {
+		if strings.Contains(ExprStr(e), ".Name()") {
+			return true
+		}
+		for o := range nameLocals {
+			if defs[o] == 1 && mentionsObj(info, e, o) {
+				return true
+			}
+		}
+		return false
+	}
 	atom := func(e ast.Expr) (string, bool, bool) {
 		e = ast.Unparen(e)
 		if x, op, ok := IsNilCompare(info, e); ok && ObjOf(info, x) == plug {
@@ -1263,7 +1294,7 @@ func ruleRegisterContract(r *Run, rule string) {
 		}
 		if be, ok := e.(*ast.BinaryExpr); ok && (be.Op == token.EQL || be.Op == token.NEQ) {
 			for _, pair := range [][2]ast.Expr{{be.X, be.Y}, {be.Y, be.X}} {
-				if v, isS := ConstString(info, pair[1]); isS && v == "" && strings.Contains(ExprStr(pair[0]), ".Name()") {
+				if v, isS := ConstString(info, pair[1]); isS && v == "" && isName(pair[0]) {
 					return "name-blank", be.Op == token.NEQ, true
 				}
 			}
@@ -1304,7 +1335,7 @@ func ruleRegisterContract(r *Run, rule string) {
 			}
 			if e.Kind == EvAssign && len(e.Lhs) == len(e.Rhs) {
 				for k, l := range e.Lhs {
-					if ix, ok := ast.Unparen(l).(*ast.IndexExpr); ok && ObjOf(info, e.Rhs[k]) == plug && strings.Contains(ExprStr(ix.Index), ".Name()") {
+					if ix, ok := ast.Unparen(l).(*ast.IndexExpr); ok && ObjOf(info, e.Rhs[k]) == plug && isName(ix.Index) {
 						if tv, ok := info.Types[ix.X]; ok {
 							if _, isMap := tv.Type.Underlying().(*types.Map); isMap {
 								stored = true
